@@ -6,6 +6,7 @@ import (
 	"bufio"
 	"bytes"
 	"context"
+	"crypto/sha256"
 	"encoding/base64"
 	"fmt"
 	"io"
@@ -110,7 +111,7 @@ func (u *c37Upstream) serve(w http.ResponseWriter, r *http.Request) {
 	}
 	u.mu.Lock()
 	u.seen = append(u.seen, c37Seen{Method: r.Method, RequestURI: r.RequestURI, Host: r.Host, Header: r.Header.Clone(),
-		BodyB64: base64.StdEncoding.EncodeToString(body), body: body})
+		BodyB64: c37Trim(body), body: body})
 	n, s := len(u.seen), u.script
 	u.mu.Unlock()
 	if n > 1 || s == nil {
@@ -212,7 +213,7 @@ func c37Do(addr string, raw []byte, method string) (*c37Got, error) {
 	if err != nil {
 		return nil, fmt.Errorf("reading response body: %w", err)
 	}
-	return &c37Got{Status: resp.StatusCode, Header: resp.Header, BodyB64: base64.StdEncoding.EncodeToString(body), body: body,
+	return &c37Got{Status: resp.StatusCode, Header: resp.Header, BodyB64: c37Trim(body), body: body,
 		ClientAddr: conn.LocalAddr().String()}, nil
 }
 
@@ -264,6 +265,26 @@ func c37Value(rng *verifkit.Rand) string {
 		}
 	}
 	return string(b)
+}
+
+func c37Random(rng *verifkit.Rand, n int) []byte {
+	b := make([]byte, n)
+	for i := 0; i < n; i += 8 {
+		v := rng.Uint64()
+		for k := 0; k < 8 && i+k < n; k++ {
+			b[i+k] = byte(v >> (8 * k))
+		}
+	}
+	return b
+}
+
+// c37Trim renders body bytes for a witness: short ones in full, long ones as length,
+// SHA-256 and a prefix.
+func c37Trim(body []byte) string {
+	if len(body) <= 4096 {
+		return base64.StdEncoding.EncodeToString(body)
+	}
+	return fmt.Sprintf("(%d bytes, sha256 %x) %s…", len(body), sha256.Sum256(body), base64.StdEncoding.EncodeToString(body[:192]))
 }
 
 func c37Body(rng *verifkit.Rand, thorough bool) []byte {
@@ -395,7 +416,7 @@ var c37ReqHeaderNames = []string{"X-Honeycomb-Team", "X-Honeycomb-Dataset", "Aut
 	"Via", "Content-Type", "Content-Encoding", "X-Request-Id", "X-Custom-Thing", "X_Under_Score", "X.Dot.Name", "Forwarded", "Pragma", "Range", "Origin", "Referer"}
 
 var c37RespHeaderNames = []string{"Set-Cookie", "Vary", "Link", "Www-Authenticate", "Cache-Control", "Etag", "Location", "Retry-After", "Content-Disposition",
-	"X-Honeycomb-Trace", "Ratelimit", "Ratelimit-Policy", "x-odd-CASE-header", "X_Under_Score", "Access-Control-Allow-Origin", "Access-Control-Expose-Headers", "Content-Language", "Warning"}
+	"X-Honeycomb-Trace", "Ratelimit", "Ratelimit-Policy", "x-odd-CASE-header", "X_Under_Score", "Access-Control-Allow-Origin", "Access-Control-Expose-Headers", "Access-Control-Allow-Methods", "Access-Control-Allow-Headers", "Access-Control-Max-Age", "Content-Language", "Warning"}
 
 // transport-managed / hop-by-hop names the oracle does not compare
 var c37ReqManaged = map[string]bool{"Host": true, "Content-Length": true, "Transfer-Encoding": true, "Connection": true, "X-Forwarded-For": true}
@@ -463,6 +484,7 @@ type c37Lane struct {
 	listener string // "" = PRNG's choice
 	phase    string // "" for the plain pass
 	withBody bool   // POST/PUT/PATCH with a non-empty body
+	bodySize int    // >0: POST/PUT/PATCH with a random body of exactly this size
 }
 
 func (l *c37Lane) sig(s string) string {
@@ -596,11 +618,16 @@ func TestVerif_C37(t *testing.T) {
 		if ln.listener != "" {
 			req.Listener = ln.listener
 		}
-		if ln.withBody {
+		if ln.withBody || ln.bodySize > 0 {
 			req.Method = verifkit.Pick(rng, "POST", "POST", "PUT", "PATCH")
 		}
 		var wantTarget string
 		req.Target, req.PathClass, wantTarget = c37Target(rng, req.Method)
+		// a non-canonical path is answered by the mux's redirect before the body is read; with
+		// a multi-megabyte body the server then resets the connection under the writing client
+		for ln.bodySize > 0 && req.PathClass == "unclean" {
+			req.Target, req.PathClass, wantTarget = c37Target(rng, req.Method)
+		}
 		nh := rng.Range(0, 8)
 		var names []string
 		for k := 0; k < nh; k++ {
@@ -621,6 +648,19 @@ func TestVerif_C37(t *testing.T) {
 			sentAE = true
 			if rng.Chance(0.2) {
 				req.Headers = append(req.Headers, c37H{Name: "accept-encoding", Value: "deflate"})
+			}
+		}
+		// CORS request headers (a browser's preflight is OPTIONS + Access-Control-Request-*;
+		// they are ordinary end-to-end headers for a relay), on any method
+		cors := false
+		if req.Method == "OPTIONS" && rng.Chance(0.7) || rng.Chance(0.12) {
+			cors = true
+			req.Headers = append(req.Headers, c37H{Name: c37OddCase(rng, "Origin"), Value: "https://ui." + rng.Hex(4) + ".example"})
+			if rng.Chance(0.85) {
+				req.Headers = append(req.Headers, c37H{Name: c37OddCase(rng, "Access-Control-Request-Method"), Value: verifkit.Pick(rng, "POST", "GET", "PUT", "DELETE", "PATCH")})
+			}
+			if rng.Chance(0.7) {
+				req.Headers = append(req.Headers, c37H{Name: c37OddCase(rng, "Access-Control-Request-Headers"), Value: verifkit.Pick(rng, "x-honeycomb-team", "X-Honeycomb-Team, Content-Type", "authorization,x-honeycomb-dataset")})
 			}
 		}
 		// earlier hops
@@ -659,6 +699,10 @@ func TestVerif_C37(t *testing.T) {
 			if ln.withBody {
 				req.Chunked = rng.Chance(0.4)
 			}
+			if ln.bodySize > 0 {
+				req.Body = c37Random(rng, ln.bodySize)
+				req.Chunked = rng.Chance(0.3)
+			}
 			switch {
 			case len(req.Body) == 0:
 				bodyClass = "empty"
@@ -668,10 +712,7 @@ func TestVerif_C37(t *testing.T) {
 				bodyClass = "small"
 			}
 		}
-		req.BodyB64 = base64.StdEncoding.EncodeToString(req.Body)
-		if len(req.Body) > 4096 {
-			req.BodyB64 = fmt.Sprintf("(%d bytes) ", len(req.Body)) + req.BodyB64[:256] + "…"
-		}
+		req.BodyB64 = c37Trim(req.Body)
 
 		// ---- scripted upstream response ----
 		sc := &c37Script{Status: verifkit.Pick(rng, statuses...)}
@@ -726,10 +767,7 @@ func TestVerif_C37(t *testing.T) {
 		if len(sc.Body) > 0 && rng.Chance(0.3) {
 			sc.Pieces = rng.Range(2, 5)
 		}
-		sc.BodyB64 = base64.StdEncoding.EncodeToString(sc.Body)
-		if len(sc.Body) > 4096 {
-			sc.BodyB64 = fmt.Sprintf("(%d bytes) ", len(sc.Body)) + sc.BodyB64[:256] + "…"
-		}
+		sc.BodyB64 = c37Trim(sc.Body)
 		ln.up.arm(sc)
 
 		// ---- execute ----
@@ -752,7 +790,11 @@ func TestVerif_C37(t *testing.T) {
 				run.Count("noncanonical_path_answered_by_mux_redirect", 1)
 				return
 			}
-			viol("C37/request/not-relayed/"+req.PathClass, fmt.Sprintf("%s %s was answered %d without reaching the Honeycomb API", req.Method, req.Target, got.Status), wit())
+			cls := req.PathClass
+			if cors && req.Method == "OPTIONS" {
+				cls = "cors-preflight"
+			}
+			viol("C37/request/not-relayed/"+cls, fmt.Sprintf("%s %s was answered %d without reaching the Honeycomb API", req.Method, req.Target, got.Status), wit())
 			return
 		}
 		multiReq := false
@@ -789,7 +831,11 @@ func TestVerif_C37(t *testing.T) {
 			viol("C37/request/"+kind+"/"+req.PathClass, fmt.Sprintf("client asked for %q, Honeycomb saw %q", req.Target, s.RequestURI), wit())
 		}
 		if !bytes.Equal(s.body, req.Body) {
-			viol("C37/request/body-changed", fmt.Sprintf("client sent %d body bytes, Honeycomb saw %d (or different ones)", len(req.Body), len(s.body)), wit())
+			kind := "C37/request/body-changed"
+			if len(req.Body) > 4_000_000 {
+				kind += "/multi-megabyte-body"
+			}
+			viol(kind, fmt.Sprintf("client sent %d body bytes (sha256 %x), Honeycomb saw %d (sha256 %x)", len(req.Body), sha256.Sum256(req.Body), len(s.body), sha256.Sum256(s.body)), wit())
 		}
 		// ---- P3 ----
 		wantH := c37Lists(req.Headers)
@@ -884,6 +930,18 @@ func TestVerif_C37(t *testing.T) {
 	}
 	mainLane := &c37Lane{up: up, fronts: fronts}
 	run.Cases("proxy", run.N(1500, 20000), func(i int, rng *verifkit.Rand) { exchange(i, rng, mainLane) })
+
+	// ---- multi-megabyte request bodies around Refinery's own 5 MB event-body limit
+	// (HTTPMessageSizeMax), which does not apply to relayed requests ----
+	run.Cases("large-body", run.N(3, 24), func(i int, rng *verifkit.Rand) {
+		sizes := []int{HTTPMessageSizeMax + 1, HTTPMessageSizeMax, 6_000_000 + rng.Intn(500_000), HTTPMessageSizeMax - 1, 2*HTTPMessageSizeMax + 17, HTTPMessageSizeMax + 1 + rng.Intn(4096)}
+		size := sizes[(i+int(run.Seed()))%len(sizes)]
+		if i == 0 {
+			size = HTTPMessageSizeMax + 1 // always present
+		}
+		run.Count("multi_megabyte_bodies", 1)
+		exchange(i+2, rng, &c37Lane{up: up, fronts: fronts, bodySize: size})
+	})
 
 	// ---- stale upstream connection: the pooled keep-alive connection to Honeycomb dies
 	// between two proxied requests and the next request on it has a body ----
